@@ -102,6 +102,7 @@ func cmdRun(args []string) int {
 		pc := props[*propName]
 		conf.FmtInts, conf.HashInjective = pc.FmtInts, pc.HashInj
 		sx.EnableBig = pc.MathBig
+		sx.EnableParser = pc.SQLParser
 		if len(pc.StubText) > 0 {
 			conf.StubText = map[string]bool{}
 			for _, f := range pc.StubText {
